@@ -440,7 +440,7 @@ def to_docstring(
         assert isinstance(param, tuple), "Expected 'tuple' got `{!r}`".format(
             type(param).__name__
         )
-        name, _param = param
+        name, _param = param[0], dict(param[1])  # a copy: the caller's IR is left as it was given
         del param
         if "doc" in _param:
             doc, default = extract_default(
